@@ -63,8 +63,12 @@ func (st *Store) getVersioned(key storage.StoreKey, height int64) (amt *Amount, 
 
 func (st *Store) get(key storage.StoreKey) (amt *Amount, err error) {
 	prefixed := append(st.prefix, storage.StoreKey(key)...)
-	dat, _ := st.State.Get(prefixed)
+	dat, err := st.State.Get(prefixed)
 	amt = NewAmount(0)
+	if err != nil {
+		// a refused read is not an empty balance
+		return
+	}
 	if len(dat) == 0 {
 		return
 	}
